@@ -173,8 +173,8 @@ Print Assumptions C10_replica_only_count.
 (* Resource level: a resource that no target selector wants — its label/annotation selectors
    reject it, or none of its ids is selected, or one of its ids is rejected — is left untouched. *)
 Theorem C10_replacement_exact :
-  forall parse enc nonstr lsel fuel (value : node) (tss : list target_selector) (rs rs' : list node),
-    apply_replacement parse enc nonstr lsel fuel value tss rs = Ok rs' ->
+  forall parse enc nonstr lsel fuel (tss : list target_selector) (vs : vstate) (rs rs' : list node),
+    apply_replacement parse enc nonstr lsel fuel vs tss rs = Ok rs' ->
     List.length rs' = List.length rs /\
     forall i n, nth_error rs i = Some n ->
       (forall ts sel, In ts tss -> ts_select ts = Some sel -> ~ wants lsel ts sel n) ->
@@ -195,9 +195,10 @@ Print Assumptions C10_replacement_rejected_untouched.
    comparable with (at, below or above) a returned address.
    Full statement: the same for every list of field paths and with create. *)
 Theorem C10_replacement_fields_exact_partial :
-  forall parse enc nonstr fuel (opts : option field_options) (value : node) (fp : string) (n n' : node),
+  forall parse enc nonstr fuel (opts : option field_options) (live : option addr) (value : node) (fp : string)
+         (n n' : node) (st : node * option addr),
     create_kind opts value = None ->
-    copy_value_to_target parse enc nonstr fuel opts value [fp] n = Ok n' ->
+    copy_value_to_target parse enc nonstr fuel opts live value [fp] n = Ok (n', st) ->
     exists hits,
       pm parse enc nonstr None fuel (smarter_path_splitter "."%char fp) n = Ok (n, hits) /\
       hits <> [] /\
@@ -207,13 +208,13 @@ Print Assumptions C10_replacement_fields_exact_partial.
 
 (* the value written at a (single) returned field is what setFieldValue makes of the old node ... *)
 Theorem C10_replacement_written_value :
-  forall parse enc nonstr fuel (opts : option field_options) (value : node) (fp : string) (n n' : node)
-         (h : addr) (x : node),
+  forall parse enc nonstr fuel (opts : option field_options) (live : option addr) (value : node) (fp : string)
+         (n n' : node) (st : node * option addr) (h : addr) (x : node),
     create_kind opts value = None ->
-    copy_value_to_target parse enc nonstr fuel opts value [fp] n = Ok n' ->
+    copy_value_to_target parse enc nonstr fuel opts live value [fp] n = Ok (n', st) ->
     pm parse enc nonstr None fuel (smarter_path_splitter "."%char fp) n = Ok (n, [HAt h]) ->
     get_at h n = Some x ->
-    exists x', set_field_value opts value x = Ok x' /\ get_at h n' = Some x'.
+    exists x', set_field_value opts (reread live value n) x = Ok x' /\ get_at h n' = Some x'.
 Proof. exact copy_value_written. Qed.
 Print Assumptions C10_replacement_written_value.
 
@@ -222,6 +223,31 @@ Theorem C10_replacement_verbatim : forall value t s old,
   set_field_value None value (Scalar t s old) = Ok (Scalar t s (node_value value)).
 Proof. exact set_field_value_verbatim. Qed.
 Print Assumptions C10_replacement_verbatim.
+
+(* "the source value is copied verbatim into every target" is FALSE: without source options the
+   replacement keeps the LIVE source node, and a target (with delimiter/index) that rewrites the
+   source field changes what later targets receive: source a = x, targets [a; b] (b = q), delimiter
+   "/", index 1: b becomes q/x/x, not q/x (finding C10/replacement-source-aliased-by-target) *)
+Theorem C10_replacement_verbatim_refuted :
+  splice (mkFO "/" 1%Z false) "q" "x" = "q/x" /\
+  replacement_filter (parse_of []) node_value (fun _ => false) simple_lsel 2 [alias_repl] [alias_doc] =
+  Ok [Map [("kind", Scalar TStr SPlain "ConfigMap");
+           ("metadata", Map [("name", Scalar TStr SPlain "cm")]);
+           ("data", Map [("a", Scalar TStr SPlain "x/x"); ("b", Scalar TStr SPlain "q/x/x")])]].
+Proof. exact replacement_source_aliased_lemma. Qed.
+Print Assumptions C10_replacement_verbatim_refuted.
+
+(* the address-returning lookup the replacement model uses for the source is the C14 PathGetter *)
+Theorem C10_replacement_lookup_addr : forall ps n,
+  lookup ps n = match lookup_addr ps n with
+                | Ok (Some a) => Ok (get_at a n)
+                | Ok None => Ok None
+                | Err => Err
+                | Panic => Panic
+                | Diverge => Diverge
+                end.
+Proof. exact lookup_addr_spec. Qed.
+Print Assumptions C10_replacement_lookup_addr.
 
 (* "[k=v] selects the list entries whose k EQUALS v" is FALSE for target paths: [name=x] also returns
    the entries ax and x-1 (finding C10/replacement-listkey-unanchored-regex) *)
